@@ -15,4 +15,6 @@ _whole.install(globals(), "C11",
                technique="Coq invariant of the history machine over all event streams + vm_compute trace replay + parent-feed monitor on real runs",
                quick=200, thorough=5000, nontrivial=nontrivial, machine_replay=False, hist_replay=True,
                forces=[(2, {"cap_evals": 900}), (1, {"cap_evals": 900, "height": 1, "engines": ["DE"]}), (1, {"cap_evals": 900, "height": 2, "engines": ["SEA", "SHADE"]}),
-                       (1, {"cap_evals": 900, "height": 2, "engines": ["DEdither", "CMA"]})])
+                       (1, {"cap_evals": 900, "height": 2, "engines": ["DEdither", "CMA"]}),
+                       (1, {"cap_evals": 600, "height": 1, "engines": ["SEA"], "dim": 2, "levels_patch": [{"p_mutation": 0.1, "pop": 4, "gens": 1}], "gsc": {"kind": "MetaepochLimit", "n": 40}}),
+                       (1, {"cap_evals": 600, "height": 2, "engines": ["GAStyleSEA", "CMA"], "dim": 2, "levels_patch": [{"p_mutation": 0.1, "pop": 5, "gens": 1}], "gsc": {"kind": "MetaepochLimit", "n": 30}})])
